@@ -37,6 +37,8 @@ pub enum Op {
 	UnsetHook,
 	SetErrH,
 	UnsetErrH,
+	/// `set_async_error_handler` (same recording handler, as a future)
+	SetAsyncErrH,
 }
 
 #[derive(Clone, Copy, Debug, PartialEq, Eq, PartialOrd, Ord)]
@@ -503,6 +505,38 @@ pub fn sigmap_family(_tier: Tier) -> Vec<(Sc, Vec<Bounds>)> {
 	for i in 0..signal_table().len() as u8 {
 		out.push((Sc::base(vec![(Op::Start, 0), (Op::SigVar(i), 0)], React::Ignore, 2), both(0)));
 		out.push((Sc::base(vec![(Op::Start, 0), (Op::GStopVar(i), 0)], React::Ignore, 2), both(0)));
+	}
+	out
+}
+
+/// Error-handler changes around a failing spawn (C07, C09): the handler in force when the
+/// failure happens is called once — sync, async, replaced, or unset (then nobody is called).
+pub fn errh_family(_tier: Tier) -> Vec<(Sc, Vec<Bounds>)> {
+	let mut out = vec![];
+	let scripts: Vec<Vec<Op>> = vec![
+		vec![Op::SetErrH, Op::Start],
+		vec![Op::SetAsyncErrH, Op::Start],
+		vec![Op::SetErrH, Op::UnsetErrH, Op::Start],
+		vec![Op::SetAsyncErrH, Op::UnsetErrH, Op::Start],
+		vec![Op::SetErrH, Op::SetAsyncErrH, Op::Start],
+		vec![Op::SetAsyncErrH, Op::SetErrH, Op::Start],
+		vec![Op::Start, Op::SetAsyncErrH, Op::Restart],
+		vec![Op::Start, Op::SetErrH, Op::UnsetErrH, Op::Restart],
+		vec![Op::SetAsyncErrH, Op::Start, Op::TryGRestart],
+		vec![Op::SetAsyncErrH, Op::Start, Op::UnsetErrH, Op::TryRestart],
+	];
+	for s in scripts {
+		let spawning = s.iter().filter(|o| o.may_spawn()).count();
+		for f in 1..=spawning {
+			for burst in [false, true] {
+				for r in reacts_for(&s).into_iter().filter(|r| matches!(r, React::Ignore | React::ExitNow)) {
+					let mut sc = Sc::base(one_sender(&s), r, 2);
+					sc.spawn_fail_at = Some(f);
+					sc.burst = burst;
+					out.push((sc, [both(0), both(1)].concat()));
+				}
+			}
+		}
 	}
 	out
 }
